@@ -179,6 +179,27 @@ func c03RefEval(c c03RefCase) (ok bool, sig, detail string) {
 			return false, sigx, what + fmt.Sprintf(": reference %d info %q want %q", i+1, ref.Info, exp[i].info)
 		}
 	}
+	// non-initial state: the slice (whose metadata now carries a Region, which the parser never sets) is sliced
+	// again with every forward window; clipping composes, so the result must read like the single slice
+	// [s+s2, s+e2) of a fresh parent (differential oracle, no hand-written expectation)
+	if !wrap {
+		for s2 := 0; s2 < e-s; s2++ {
+			for e2 := s2 + 1; e2 <= e-s; e2++ {
+				var twice, once gts.Sequence
+				if p, msg := engine.Safely(func() { twice = gts.Slice(out, s2, e2) }); p {
+					return false, "panic", "panic in a slice of a slice: " + msg
+				}
+				fresh := seqio.GenBank{Fields: fields, Table: nil, Origin: seqio.NewOrigin(locdom.Seq(c.L))}
+				fresh.Fields.References = append([]seqio.Reference(nil), refs...)
+				if p, msg := engine.Safely(func() { once = gts.Slice(fresh, s+s2, s+e2) }); p {
+					return false, "panic", "panic: " + msg
+				}
+				if refsOf(twice) != refsOf(once) {
+					return false, "reference-slice-of-slice", what + fmt.Sprintf(" then Slice [%d,%d) of the result: references %s, but the single slice [%d,%d) of the parent gives %s", s2, e2, refsOf(twice), s+s2, s+e2, refsOf(once))
+				}
+			}
+		}
+	}
 	return true, "", ""
 }
 
